@@ -34,7 +34,12 @@ pub fn holder_commit_and_prove_with(key: &KeyMat, msgs: &[Integer], hidden: &[us
     let m = msgs_of(msgs);
     let bases = Bases(key.bases.0[..msgs.len()].to_vec());
     let c = Commitment::<Sch>::commit_with_pk(&m, &key.pk, &bases, Some(hidden));
-    let ct = tp.map(|tp| Commitment::<Sch>::commit_with_commitment_pk(&m, tp, Some(hidden)));
+    // (a trusted party over a larger modulus than the issuer's suite commits with the randomness
+    //  of ITS suite: the commitment and key types are suite-agnostic)
+    let ct = tp.map(|tp| if tp.N.significant_bits() > LN + 100 {
+        let c = Commitment::<zkryptium::schemes::algorithms::CL03<zkryptium::cl03::ciphersuites::CL2048Sha256>>::commit_with_commitment_pk(&m, tp, Some(hidden));
+        Commitment::<Sch>::CL03(CL03Commitment { value: c.value().clone(), randomness: c.randomness().clone() })
+    } else { Commitment::<Sch>::commit_with_commitment_pk(&m, tp, Some(hidden)) });
     let zk = ZKPoK::<Sch>::generate_proof(&m, c.cl03Commitment(), ct.as_ref().map(|x| x.cl03Commitment()), &key.pk, &bases, tp, hidden);
     HolderCommit { c_value: c.value().clone(), c_randomness: c.randomness().clone(), ct_value: ct.as_ref().map(|x| x.value().clone()), ct_randomness: ct.as_ref().map(|x| x.randomness().clone()), zk_json: serde_json::to_string(&zk).unwrap(), c_json: serde_json::to_string(&c).unwrap() }
 }
